@@ -205,5 +205,38 @@ fn main() {
         let p: String = s.iter().map(|i| TOK[*i]).collect();
         check(t, &p, &pool, true);
     });
+    // scale: many alternatives, many groups, deep nesting
+    {
+        let mut t = Tally::new();
+        let mut pats: Vec<String> = vec![];
+        for n in [8usize, 16, 17, 33, 64, 200] {
+            let alts: Vec<String> = (0..n).map(|i| format!("a{}", i)).collect();
+            pats.push(format!("p{{{}}}-1", alts.join(",")));
+            pats.push(format!("{{{},}}p-1", alts.join(",")));
+            pats.push(format!("p-{{{}}}", (0..n).map(|i| i.to_string()).collect::<Vec<_>>().join(",")));
+        }
+        for g in [4usize, 6, 8, 10] {
+            pats.push(format!("p{}-1", "{a,b}".repeat(g)));
+            pats.push(format!("p{}-1", "{,a}".repeat(g)));
+        }
+        // many groups with a single expansion
+        for g in [12usize, 16, 17, 18, 20, 33, 64, 130] {
+            pats.push(format!("p{}-1", "{a}".repeat(g)));
+            pats.push(format!("p{}{{a,b}}-1", "{}".repeat(g)));
+        }
+        for d in [4usize, 8, 16, 32] {
+            pats.push(format!("p{}a{}-1", "{b,".repeat(d), "}".repeat(d)));
+            pats.push(format!("{}p{}-1", "{".repeat(d), "}".repeat(d)));
+            pats.push(format!("p{}a{}-1", "{".repeat(d), ",c}".repeat(d)));
+        }
+        let names: Vec<String> = ["p-1", "pa0-1", "pa7-1", "pa15-1", "pa16-1", "pa63-1", "pa199-1", "pa200-1", "a0p-1", "a16p-1", "p-0", "p-16", "p-199", "p-200",
+            "pab-1", "paaaa-1", "paaaaaaaaaaaa-1", "paaaaaaaaaaaaaaaaaa-1", "paaaaaaaaaaaaaaaaaaaa-1", "pabababab-1", "paaaaaaaaaa-1", "pb-1", "pa-1", "pbbbba-1", "pc-1", "pac-1", "pacccc-1"].iter().map(|s| s.to_string()).collect();
+        run.bound(format!("scale: {} patterns with 8..200 alternatives, 4..10 groups, nesting depth 4..32 x {} names plus own expansions", pats.len(), names.len()));
+        for p in &pats {
+            t.states += 1;
+            check(&mut t, p, &names, true);
+        }
+        run.merge(t);
+    }
     run.finish();
 }
